@@ -321,10 +321,7 @@ fn scenarios(r: &mut Rng, a: &Acct, data: &[u8]) -> Vec<(String, SigMap)> {
     }
     // extra unknown credential
     {
-        let mut m = sign_sel(a, data, if r.chance(1, 2) { &exact } else { &exact });
-        if r.chance(1, 2) {
-            m = sign_sel(a, data, &sel_all(a));
-        }
+        let mut m = if r.chance(1, 2) { sign_sel(a, data, &exact) } else { sign_sel(a, data, &sel_all(a)) };
         let ci = a.unused_cred(r);
         let k = gen_key(r);
         let mut inner = BTreeMap::new();
